@@ -236,9 +236,9 @@ def check(pid, tier):
             t1 = time.time()
             try:
                 rc, out = sh([exe, mod, "--tier", tier, "--seed", str(seed), "--report", rpath, "--property", pid],
-                             cwd=VERIF, env=env, timeout=cfg.get("timeout", 3000))
+                             cwd=VERIF, env=env, timeout=cfg.get("timeout", 900 if tier == "quick" else 5400))
             except subprocess.TimeoutExpired:
-                rc, out = 124, "timeout"
+                rc, out = 124, f"timeout: the harness module did not finish within its time limit ({tier} tier); on the unchanged tree it takes seconds"
             log(f"[{pid}] harness {mod}: rc={rc} {time.time() - t1:.1f}s :: {out.strip().splitlines()[-1] if out.strip() else ''}")
             if rc != 0 or not os.path.exists(rpath):
                 broken.append({"what": "harness-run", "module": mod, "rc": rc, "detail": out[-2500:]})
